@@ -93,6 +93,11 @@ CHECKS = {
    note="Trusted: Coq kernel/vm_compute; Model/PathSum.v + Glue instantiation; Python harness. Partial: accuracy of the Matsubara quadrature and the zero-coupling limit for non-commuting H are explored (1e-8 at zero coupling), not proved.",
    technique="Coq proof (sum over paths, tiling) + differential correspondence against an exact integer path-sum model + closed-form search",
    design="3/C11"),
+ "C12": dict(
+   text="Theorems (Coq + Coquelicot real analysis): for a continuous correlation function with first and second antiderivatives F and G (eta_function), for all cell positions and sizes the 2D integrals over rectangle, square and upper-triangle cells are G(t2)-G(t1)-G(t2-d)+G(t1-d), G(t1+d)-2G(t1)+G(t1-d) and G(t1+d)-G(t1)-d*F(t1) (rectangle_cell, square_cell, triangle_cell: fundamental theorem of calculus twice, affine substitution); the integrand of eta_function is the twice-integrated integrand of correlation() for every frequency, vanishing at 0 (kernel_T0); C(-t)=conj C(t) and Re of the triangle integral >= 0 at kernel level (hermitian_sym_and_positivity); tiling and additivity of rectangles over any ring (tiling, rectangle_splits). Tied to /repo by the shape branch of CustomSD.correlation_2d_integral on an exact dyadic polynomial eta (exact), by closed forms of eta_function / correlation for the ohmic exponential density checked inside Coq with the interval tactic on the values Python returned, and by a search against dblquad of the object's own correlation function (all cut-offs, exponents, T through the overflow-guard crossover; offset triangles; tiling; symmetry; custom vs power law; Matsubara realness).",
+   note="Trusted: Coq kernel; the standard library's real-number axioms listed by Print Assumptions (ClassicalDedekindReals.sig_forall_dec, sig_not_dec, Classical_Prop.classic, functional_extensionality_dep) via Coquelicot; for the interval goals additionally the primitive-float axioms of Coq Interval; Python harness. Partial: QUADPACK convergence and the overflow guard are explored, not proved.",
+   technique="Coq/Coquelicot proof (FTC, substitution) + exact shape correspondence + interval-arithmetic closed-form checks + direct-integration search",
+   design="3/C12"),
 }
 
 NOT_YET = {}
